@@ -132,6 +132,24 @@ Proof. intros. destruct (meta_publish_all_frame mps r) as (_ & _ & _ & _ & E & _
 Lemma meta_publish_dealer : forall mp r, r_dealer (fst (meta_publish r mp)) = r_dealer r.
 Proof. intros. destruct (meta_publish_frame r mp) as (_ & _ & _ & _ & E & _). exact E. Qed.
 
+(** the dealer an aborted CALL leaves behind differs from [d] in a round-robin cursor only *)
+Lemma call_abort_dealer_tables : forall lk d caller req opts proc oracle,
+    let d' := call_abort_dealer lk d caller req opts proc oracle in
+    d_calls d' = d_calls d /\ d_invs d' = d_invs d /\ d_bycall d' = d_bycall d /\ d_timers d' = d_timers d.
+Proof.
+  intros. subst d'. unfold call_abort_dealer.
+  destruct (match_procedure d proc oracle) as [rg|]; [|auto].
+  destruct (reg_callees rg); [auto|].
+  destruct (opt_bool opts "progress" && _); [auto|].
+  destruct (cget (d_bycall d) (s_id caller, req)); [auto|].
+  destruct (select_callee rg oracle) as [[cid next]|]; [|auto].
+  destruct (lk cid); auto.
+Qed.
+
+Lemma call_abort_dealer_calls : forall lk d caller req opts proc oracle,
+    d_calls (call_abort_dealer lk d caller req opts proc oracle) = d_calls d.
+Proof. intros. apply call_abort_dealer_tables. Qed.
+
 (** ** The recorded calls of a realm *)
 Definition rrec (r : realm) : callid -> Prop := drec (r_dealer r).
 
@@ -287,8 +305,12 @@ Proof.
     apply ok4_of_dstep in D.
     destruct (call _ _ _ _ _ _ _ _ _ _ _) as [d o|o|d callee o] eqn:Ecall; cbn [DealerOwned.call_out call_state] in D.
     + exact D.
-    + specialize (Lv r None W I). destruct (leave r (s_id s)) as [r1 o1]. cbn [fst snd] in *.
-      unfold rok. eapply ok4_seq; [exact D|exact Lv].
+    + destruct (call_abort_realm_wf r s req opts proc oracle k W I) as (Wa & Ia & _). cbv zeta in Wa, Ia.
+      pose proof (call_abort_dealer_calls (lookup r) (r_dealer r) s req opts proc oracle) as Ec.
+      match goal with |- context [leave ?R (s_id s)] =>
+        specialize (Lv R None Wa Ia); destruct (leave R (s_id s)) as [r1 o1] end. cbn [fst snd] in *.
+      unfold rok, rrec, drec in *. cbn [r_dealer r_set_dealer] in Lv. rewrite Ec in Lv.
+      eapply ok4_seq; [exact D|exact Lv].
     + destruct (call_invoked_wf r s req opts proc args kw oracle k d callee o W I Hk Hs Ecall)
         as (W2 & J2 & _ & (rcv & invid & regid & det & Eo & _) & Hcl).
       assert (Q : quiet o) by (rewrite Eo; apply invocation_quiet).
